@@ -266,14 +266,9 @@ impl Watcher {
             Ok(penalty_tx) => {
                 // Data needs to be added the database straightaway since appointments are
                 // FKs to trackers. If handle breach fails, data will be deleted later.
-                self.dbm
-                    .lock()
-                    .unwrap()
-                    .store_appointment(uuid, appointment)
-                    // TODO: Don't unwrap, or better, make this insertion atomic with the
-                    // `responder.has_tracker` that might cause the unwrap in the first place.
-                    // ref: https://github.com/talaia-labs/rust-teos/pull/190#discussion_r1218235632
-                    .unwrap();
+                // The appointment may already be there without a tracker (e.g. its penalty was already
+                // in the chain when the breach was seen), in which case this is an update.
+                self.store_appointment(uuid, appointment);
 
                 if let ConfirmationStatus::Rejected(reason) = self.responder.handle_breach(
                     uuid,
